@@ -649,6 +649,7 @@ func (fr *Frame) enterLoop(st *State, li *loopInfo, run *loopRun) *State {
 		for _, d := range spec.Decreases {
 			run.dec0 = append(run.dec0, fr.evalExpr(sc, d))
 		}
+		fr.oblige(nst, "cover", lname, False, nil, pos)
 	}
 	if spec == nil || len(spec.Decreases) == 0 {
 		if li.rangeCell != nil && li.rangeLim != nil {
